@@ -131,6 +131,11 @@ func setupDigester(hash crypto.Hash, header []byte, hvals *peHeaderValues, secti
 			spage := (sh.SizeOfRawData + hvals.pageSize - 1) / hvals.pageSize
 			pages += int(spage)
 		}
+		// the section sizes come from the header and nothing has been read yet: do not let them size the
+		// allocation (this is only a capacity hint, append grows the slice as pages are actually hashed)
+		if pages > 1<<16 {
+			pages = 1 << 16
+		}
 		h.pageHashes = make([]byte, 0, pages*(4+hash.Size()))
 		// the first page is the headers padded out to a full page with the
 		// signature bits snipped out in the same way as for the regular
